@@ -102,6 +102,7 @@ func runC02(c *Ctx) {
 	c.withOnly("R1", "R19", func() { runC14(c) })
 	c.withOnly("R2", "R20", func() { runC14(c) })
 	checkRepliesHoldNoPooledMemory(c, "R21")
+	checkNoCloseBetweenEndOfInputAndJoin(c, "R22")
 	pos := func(in ssa.Instruction) string { return p.Pos(in.Pos()) }
 	handle := p.Func("handlePacket")
 	worker := p.Func("(*RequestServer).packetWorker")
